@@ -61,6 +61,10 @@ pub fn dirty(out_dir: &Path, names: &[(String, Vec<u8>)]) {
 }
 
 pub fn observe(bins: &Binaries, cmd: &Cmd, in_dir: &Path, out_dir: &Path, env: &Env) -> Obs {
+    // short reads / EINTR apply to the input files only (never to /proc, /sys or shared libraries)
+    let mut env = env.clone();
+    env.io_prefixes = vec![in_dir.to_string_lossy().into_owned()];
+    let env = &env;
     let mut args = cmd.resolved_args(in_dir, out_dir);
     let stdin_data = cmd.stdin_file.as_ref().map(|n| cmd.files.iter().find(|(f, _)| f == n).map(|(_, c)| c.clone().into_bytes()).unwrap_or_default());
     if cmd.stdin_file.is_some() {
@@ -370,6 +374,8 @@ fn count_dims(t: &mut Tally, e: &Env) {
     b("crash_restart_on_same_output_directory", e.crash_first_us.is_some());
     b("inherited_stdin_carries_a_copy_of_the_input", e.stdin_noise);
     b("stdin_producer_pauses_half_way", e.stdin_pause_ms.is_some());
+    b("short_reads_on_input_files", e.read_max.is_some());
+    b("eintr_on_reads_of_input_files", e.read_eintr_every.is_some());
     b("native_no_interposer", !e.preload);
 }
 
